@@ -24,6 +24,11 @@ type PassContext struct {
 const defragMaxAllocsToIgnore = 16
 
 func (p *PassContext) checkCounters(bytes int) defragCounterStatus {
+	// No further relocation fits into this pass
+	if p.Stats.AllocationsMoved >= p.MaxPassAllocations {
+		return defragCounterEnd
+	}
+
 	// Ignore allocation if it will exceed max size for copy
 	if p.Stats.BytesMoved+bytes > p.MaxPassBytes {
 		p.ignoredAllocs++
